@@ -186,8 +186,19 @@ func (o *Obs) Apis() map[string]interface{} {
 		"fl":  o.Fl,
 		"pn":  o.Pn,
 		"pnb": o.Pnb,
+		"lsv": LocalSrc,
 	}
 }
+
+// LocalSrc is injected as lsv: lsv[j] == 5000+j. A local assigned from one of its elements is assigned from an
+// addressable location of injected data (the local gets the value, and every execution its own).
+var LocalSrc = func() []int64 {
+	s := make([]int64, 8192)
+	for j := range s {
+		s[j] = int64(5000 + j)
+	}
+	return s
+}()
 
 // ---- extra observers used by the conc-block monitor (C18) ----
 
